@@ -10,6 +10,7 @@ import ProfiVerif.Lemmas.GsdFaithful5
 import ProfiVerif.Model.Gsd.Peg
 import ProfiVerif.Lemmas.PegAst
 import ProfiVerif.Lemmas.PegFuel
+import ProfiVerif.Lemmas.PegTextDesc
 
 namespace PV.C19
 open PV.Gsd
@@ -164,6 +165,50 @@ theorem parse_total (text : Str) :
     | ok v => exact .inl ⟨v.1, v.2, rfl⟩
     | err e => exact .inr ⟨e, rfl⟩
     | panic => exact (h1 h).elim
+
+/-! ### Text level (partial) -/
+
+/-- **Text-level faithfulness, settings sub-language.**  For every non-empty list of *canonical*
+settings — key an identifier (letters, digits, `_`, `.`) that no block keyword (`PrmText`, `Module`,
+`SlotDefinition`, …) clashes with, optional `(index)`, value a decimal number, a string literal without
+inner quotation mark, or a list of at least two decimal numbers — the model parser, run on the text
+`#Profibus_DP` + one line `key[(idx)]=value` per setting, answers exactly the interpretation of those
+settings: the whole chain text → PEG (generated grammar: `any_text`, `start`, implicit skipping,
+the nine block alternatives of `statement` failing, `setting`, `setting_value` with its look-aheads,
+`number_list`, `NEWLINE+`, `EOI`) → pair tree → `toAst` → `interp` is proved, for all such texts. -/
+theorem text_faithful_settings_partial (s : Setting) (ss : List Setting) (h : ∀ x ∈ s :: ss, Peg.LineCanon x) :
+    parse (Peg.fileText (s :: ss)) = some (interp ((s :: ss).map Stmt.setting)) :=
+  Peg.parse_file fuel_checked s ss h
+
+/-- **The scalar part of every description is reproduced from its text**: identification data,
+sizes, feature flags, supported speeds and response times (the 42 settings of `scalarStmts`), written
+one per line after `#Profibus_DP`, are parsed — text to description — to the description holding
+exactly these values (all other fields as after `Default::default()`), followed by the
+post-processing `finish` (legacy prm data, `Max_Module` default, compact-station rule). -/
+theorem text_faithful_scalars_partial (d : Desc) (h : ScalarsOk d) (hq : Peg.ScalarsNoQuote d) :
+    parse (Peg.scalarText d) =
+      some (finish { gsd := scalarsOf d, maxModulesSeen := true, modularSeen := true }) := by
+  rw [Peg.parse_scalarText fuel_checked d hq]
+  simp only [interp, run_scalars d h]
+  rfl
+
+/-- Hypotheses are satisfiable, and the text is the expected one. -/
+def exampleSetting : Setting :=
+  { key := "Ext_User_Prm_Data_Const".toList, index := some (.dec ("0".toList)),
+    value := .list [.dec ("1".toList), .dec ("-2".toList), .dec ("30".toList)] }
+
+example : Peg.LineCanon exampleSetting := by
+  refine ⟨⟨⟨'E', "xt_User_Prm_Data_Const".toList, rfl, by decide⟩, ?_, ⟨by decide, ?_⟩⟩, by decide⟩
+  · intro n hn; cases hn; exact ⟨'0', [], .inl rfl, by decide⟩
+  · intro n hn
+    simp only [List.mem_cons, List.not_mem_nil, or_false] at hn
+    rcases hn with rfl | rfl | rfl
+    · exact ⟨'1', [], .inl rfl, by decide⟩
+    · exact ⟨'2', [], .inr rfl, by decide⟩
+    · exact ⟨'3', ['0'], .inl rfl, by decide⟩
+
+example : Peg.fileText [exampleSetting, { key := "Vendor_Name".toList, index := none, value := .str ("\"x y\"".toList) }] =
+    "#Profibus_DP\nExt_User_Prm_Data_Const(0)=1,-2,30\nVendor_Name=\"x y\"\n".toList := by decide
 
 /-! ### Non-vacuity -/
 
